@@ -237,7 +237,58 @@ def b_nested_catch(env, deco):
     return "outer-done"
 
 
-BODIES = [b_plain, b_span, b_between, b_nested, b_catch, b_finally, b_return, b_two, b_catch_return, b_nested_catch]
+def b_hand_driven(env, deco):
+    """The parent steps a decorated child by hand (no `yield from`): while the child is suspended inside
+    its own action the parent keeps its own context, also when it leaves its action first."""
+    env.probe("start")
+    cenv = Env(env.name + ".child", env.problems, env.checking, env.seen)
+    child = None
+    try:
+        with env.action("g:parent"):
+            cenv.base = env.top()
+            child = deco(b_span)(cenv, deco)
+            v = next(child)
+            env.probe("child-suspended-in-its-action")
+            env.log("parent-while-child-suspended")
+            x = yield ("child-yielded", v)
+            env.probe("r1")
+            v2 = child.send(x)
+            env.probe("after-second-child-step")
+            yield ("child-yielded", v2)
+            env.probe("r2")
+        env.probe("after-parent-action")
+        env.log("tail")
+    finally:
+        if child is not None:
+            child.close()
+    env.probe("after-child-close")
+    return "hand-driven-done"
+
+
+def b_shared(env, deco):
+    """Several generators continue one long-lived action with action.context() across their yields."""
+    env.probe("start")
+    shared = Env.SHARED
+    with shared.context():
+        env.stack.append(shared)
+        try:
+            env.probe("after-enter-shared")
+            x = yield 1
+            env.probe("r1")
+            env.log("in-shared")
+            y = yield ("got", x)
+            env.probe("r2")
+        finally:
+            env.stack.pop()
+    env.probe("after-shared")
+    yield 3
+    env.probe("r3")
+    return "shared-done"
+
+
+BODIES = [b_plain, b_span, b_between, b_nested, b_catch, b_finally, b_return, b_two, b_catch_return, b_nested_catch,
+          b_hand_driven, b_shared]
+N_CORE_BODIES = 10  # the last two are paired with themselves, with each other and with b_span only
 OPS = ["next", "send", "throw", "close", "throw-base", "send-exception-instance", "send-exc_info-like-tuple"]
 
 
@@ -255,7 +306,8 @@ def BOUNDS(tier):
 
 def configs(tier):
     out = [[i] for i in range(len(BODIES))]
-    out += [[i, j] for i in range(len(BODIES)) for j in range(i, len(BODIES))]
+    out += [[i, j] for i in range(N_CORE_BODIES) for j in range(i, N_CORE_BODIES)]
+    out += [[10, 10], [11, 11], [10, 11], [1, 10], [1, 11]]
     triples = [[1, 5, 0], [3, 1, 4], [7, 7, 5], [1, 1, 1]]
     out += triples[: BOUNDS(tier)["triples"]]
     return out
@@ -291,6 +343,7 @@ def drive(cfg, steps, decorated):
         seen = world.capture()
         X = start_action(action_type="driver:X")
         Y = start_action(action_type="driver:Y")
+        Env.SHARED = start_action(action_type="driver:shared")
         ctxs = [None, X, Y, None, None]
         cache = {}
 
